@@ -744,6 +744,129 @@ func c19Async(t *testing.T, o *vOut, rng *mrand.Rand) {
 	}
 }
 
+// ---------------------------------------------------------------- every producer of renewal jobs, one name
+//
+// Renewal jobs for a name come from more than one place: ManageAsync (Config.manageOne) and the
+// cache's maintenance routine (Cache.RenewManagedCertificates, what the ticker calls). "At most
+// one background renewal job per name" is a statement about all of them together, so the
+// histories here interleave them — for 1..3 names whose certificates are in storage and due for
+// renewal, with a CA that keeps failing, so that a job, once started, stays in its back-off for
+// the rest of the history (and keeps the per-name issuance lock). Events: m<i> ManageAsync(name i),
+// c<i> CacheManagedCertificate(name i) (in the cache, no job), t one maintenance pass,
+// w<minutes> virtual time passes. Observed at quiescence after every event, without reference to
+// how jobs are named: jobs alive in the package job manager (workers + queued), entries of
+// jm.names, and per name the number of completed Lock calls so far on a storage lock ending in
+// that name (a renewal job takes the issuance lock of its name exactly once, before anything else;
+// a job still blocked on that lock shows in the first two numbers only).
+
+func c19ProducerName(i int) string { return fmt.Sprintf("p%d.c19.example", i) }
+
+func c19RunProducers(t *testing.T, o *vOut, n int, evs []string) {
+	synctest.Test(t, func(t *testing.T) {
+		if !c19JMIdle() {
+			t.Fatalf("package job manager not idle at scenario start")
+		}
+		ctx, cancel := context.WithCancel(context.Background())
+		st := vNewMem()
+		ca := vNewCA("c19p")
+		iss := vNewIssuer("i", ca)
+		iss.Behave = func(int, []string) error { return errors.New("verif: issuer unavailable") }
+		cache, cfg := vNewCfg(st, []Issuer{iss}, func(c *Config, co *CacheOptions) {
+			co.RenewCheckInterval = 100000 * time.Hour // maintenance passes are events of the history
+			co.OCSPCheckInterval = 100000 * time.Hour
+		})
+		now := time.Now()
+		for i := 0; i < n; i++ {
+			certPEM, keyPEM, _ := ca.vKeyPair([]string{c19ProducerName(i)}, now.Add(-80*24*time.Hour), now.Add(10*24*time.Hour))
+			if err := cfg.saveCertResource(ctx, iss, CertificateResource{SANs: []string{c19ProducerName(i)}, CertificatePEM: certPEM, PrivateKeyPEM: keyPEM}); err != nil {
+				t.Fatalf("saveCertResource: %v", err)
+			}
+		}
+		var obs []string
+		for _, e := range evs {
+			idx := 0
+			if len(e) > 1 {
+				idx, _ = strconv.Atoi(e[1:])
+			}
+			switch e[0] {
+			case 'm':
+				if err := cfg.ManageAsync(ctx, []string{c19ProducerName(idx)}); err != nil {
+					t.Fatalf("ManageAsync: %v", err)
+				}
+			case 'c':
+				if _, err := cfg.CacheManagedCertificate(ctx, c19ProducerName(idx)); err != nil {
+					t.Fatalf("CacheManagedCertificate: %v", err)
+				}
+			case 't':
+				if err := cache.RenewManagedCertificates(ctx); err != nil {
+					t.Fatalf("RenewManagedCertificates: %v", err)
+				}
+			case 'w':
+				time.Sleep(time.Duration(idx) * time.Minute)
+			}
+			synctest.Wait()
+			jm.mu.Lock()
+			live, names := jm.activeWorkers+len(jm.queue), len(jm.names)
+			jm.mu.Unlock()
+			locks := make([]int, n)
+			for _, op := range st.Ops() {
+				if op.Kind != "Lock" {
+					continue
+				}
+				for i := 0; i < n; i++ {
+					if strings.HasSuffix(op.Key, c19ProducerName(i)) {
+						locks[i]++
+					}
+				}
+			}
+			obs = append(obs, fmt.Sprintf("%d/%d/%s", live, names, c19Ints(locks)))
+		}
+		o.Line("producers %d %s => %s", n, strings.Join(evs, " "), strings.Join(obs, " "))
+		o.Stat("producer_events_checked", len(evs))
+		cancel()
+		for i := 0; i < 200000 && !c19JMIdle(); i++ {
+			time.Sleep(30 * time.Second)
+		}
+		cache.Stop()
+		if !c19JMIdle() {
+			t.Fatalf("package job manager not drained")
+		}
+	})
+}
+
+func c19Producers(t *testing.T, o *vOut, rng *mrand.Rand) {
+	for _, sc := range [][]string{
+		{"m0", "t"}, {"m0", "w1", "t", "w10", "t"}, {"c0", "t", "m0"}, {"c0", "t", "w3", "t"},
+		{"m0", "m0", "t"}, {"c0", "m0", "t"}, {"t", "m0", "t"},
+	} {
+		c19RunProducers(t, o, 1, sc)
+	}
+	c19RunProducers(t, o, 2, []string{"m0", "c1", "t", "m1", "w10", "t"})
+	c19RunProducers(t, o, 3, []string{"m2", "m0", "t", "c1", "w25", "t", "m1"})
+	rounds := 16
+	if vThorough() {
+		rounds = 400
+	}
+	waits := []int{1, 2, 5, 10, 20, 60, 600}
+	for r := 0; r < rounds; r++ {
+		n := 1 + rng.Intn(3)
+		var evs []string
+		for k, l := 0, 3+rng.Intn(6); k < l; k++ {
+			switch x := rng.Intn(10); {
+			case x < 3:
+				evs = append(evs, fmt.Sprintf("m%d", rng.Intn(n)))
+			case x < 5:
+				evs = append(evs, fmt.Sprintf("c%d", rng.Intn(n)))
+			case x < 8:
+				evs = append(evs, "t")
+			default:
+				evs = append(evs, fmt.Sprintf("w%d", waits[rng.Intn(len(waits))]))
+			}
+		}
+		c19RunProducers(t, o, n, evs)
+	}
+}
+
 // ---------------------------------------------------------------- which directory a client uses
 
 func c19Dir(t *testing.T, o *vOut, rng *mrand.Rand) {
@@ -1031,6 +1154,19 @@ func c19ReplayLine(t *testing.T, o *vOut, req string) bool {
 		c19RunJobs(t, o, nil, f[2], m, evs, nil)
 		return true
 	}
+	if len(f) >= 4 && f[0] == "C19" && f[1] == "producers" {
+		n, _ := strconv.Atoi(f[2])
+		for _, e := range f[3:] {
+			if !strings.ContainsRune("mctw", rune(e[0])) {
+				return false
+			}
+		}
+		if n < 1 || n > 8 {
+			return false
+		}
+		c19RunProducers(t, o, n, f[3:])
+		return true
+	}
 	return false
 }
 
@@ -1085,6 +1221,7 @@ func TestVerifC19(t *testing.T) {
 	c19Retry(t, o, rng)
 	c19Jobs(t, o, rng)
 	c19Async(t, o, rng)
+	c19Producers(t, o, rng)
 	c19Dir(t, o, rng)
 	c19Issue(t, o, rng)
 	c19Stress(t, o)
